@@ -15,7 +15,7 @@ subnormals, overflow), spec/Limb64.tla.
                 little endian = reversed big endian; length = elements x width through DUP / [n]; reservation emits
                 nothing; PADDING pads exactly multi-byte objects at odd addresses; data mixed with `?` is an error.
 (G) every DataDef_MC case (statement x argument list x modes, expected layout printed by TLC) is rendered for
-    68000 (DC.x, big endian, PADDING on/off, odd/even start), z80 and 8051 (Dx, BIGENDIAN off/on), 6809 (FCB/FDB/FCC),
+    68000 and 6809 (DC.x, big endian, PADDING on/off, odd/even start; code kept in words resp. bytes), z80 and 8051 (Dx, BIGENDIAN off/on), 6809 (FCB/FDB/FCC),
     6502 (BYT/ADR) and 320C25 (BYTE/WORD/LONG, 16-bit granular), one `org` slot per case followed by a marker byte; the
     code file is read back: pad + data bytes at the slot, marker at slot + pad + length (reservations: nothing but the
     marker at slot + pad + n).  Floats are written as exact dyadic expressions (m.0/2^k.0 spelled with exactly
@@ -25,12 +25,21 @@ Verdict-bearing: bytes, error/no error, address advance.  NOT covered: decimal->
     DC.P (packed decimal), VAX/IBM float formats (vaxfloat.c, ibmfloat.c), DN nibble packing, AVR/PIC `DATA` packing
     (PACKING), TI float formats, strings in float statements, empty strings, the 1 KByte per line limit.
 
-Mutations of the real code tried (scratch copy, VERIF_REPO): see the builder's report; summary:
-    * motpseudo.c EnterWord: byte order swapped                        -> caught
-    * asmpars.c IntTypeDefs Int16 made unsigned-only (0x0010)          -> caught (negative words rejected)
-    * intpseudo.c DUP count applied twice / off by one                 -> caught
-    * ieeefloat.c Double_2_ieee2 round-to-even turned into round-up    -> caught (tie cases)
-    * asmcode.c/motpseudo.c PadBeforeStart condition inverted          -> caught
+Known findings of the pinned tree (known_findings/C09.json, one proposed fix each): half precision subnormals truncated,
+    string characters above 127 sign-extended in DW/DD/DQ/ADR/FDB, 0.0 in extended precision written with exponent 3C00h
+    (two golden files pin that byte, the fix patches them), LONG of the TMS320C2x not range-checked (a golden test contains
+    the typo the missing check hid), DC.C on 68xx targets takes its high byte from an uninitialised word.
+
+Mutations of the real code tried (fresh copy of /repo, VERIF_REPO, ./check C09 --tier quick):
+    * motpseudo.c EnterWord: bytes swapped in the ListGran()==1 branch  -> MISSED by the first version (the 68000 keeps code in
+      words and takes the other branch); after adding DC.x on a 6809 (mode lg = 1): caught (52 violations)
+    * asmpars.c IntTypeDefs: Int16 made unsigned-only (0xc010 -> 0x0010) -> caught (441, negative words rejected)
+    * intpseudo.c DUP replication loop runs once more                   -> caught (1146)
+    * ieeefloat.c Double_2_ieee2: tie rounds up instead of to even      -> caught (76)
+    * motpseudo.c PadBeforeStart ignores PADDING OFF                    -> caught (344)
+    * ieeefloat.c Double_2_ieee4: lowest mantissa bit cleared           -> caught (174)
+    * intpseudo.c Put32I_To_8: 16-bit halves swapped                    -> caught (435)
+    With all proposed fixes applied to a copy: 0 violations, no KNOWN-FINDING line, 201/201 golden tests pass.
 """
 import os
 
@@ -70,7 +79,7 @@ class Target:
 
     def slot_of(self, n, it):
         # byte address of the statement's location counter (word address x gran for the 16-bit target)
-        return 0x1000 + n * STRIDE + (1 if it.case["md"]["pcodd"] else 0)
+        return 0x1000 + n * STRIDE + (1 if (it.case["md"]["pcodd"] and self.gran == 1) else 0)
 
     def render(self, items):
         lines = self.header()
@@ -88,6 +97,8 @@ class Target:
 def target_for(case, r):
     fam, md, stmt = case["fam"], case["md"], case["stmt"]
     if fam == "moto":
+        if md.get("lg", 2) == 1:
+            return ("6809dc", "pad%d" % md["padding"], md["cs"])      # DC.x on a 68xx: code kept in bytes
         return ("68000", "pad%d" % md["padding"], md["cs"])
     if fam == "intel":
         if md["big"]:
@@ -102,6 +113,8 @@ def make_target(key, md):
     cpu, mode, cs = key
     if cpu == "68000":
         return Target(cpu, "moto", True, 1, "dc.b\t$A5", md, ["padding\t" + ("on" if mode == "pad1" else "off")])
+    if cpu == "6809dc":
+        return Target("6809", "moto", True, 1, "dc.b\t$A5", md, ["padding\t" + ("on" if mode == "pad1" else "off")])
     if cpu == "8051":
         return Target(cpu, "intel", mode == "big", 1, "db\t0A5h", md, ["bigendian\t" + ("on" if mode == "big" else "off")])
     if cpu == "z80":
